@@ -265,7 +265,7 @@ pub fn run_case(case: &MacCase, mon: &mut dyn Monitor, want_trace: bool) -> RunO
 
 pub fn finish(w: &World, stats: &mut RunStats) {
     let e = w.env.borrow();
-    stats.sim_ms += e.now_ms.saturating_sub(1000);
+    stats.sim_ms += e.now_ms.saturating_sub(clock_start_ms(e.cfg.clock_epoch));
     stats.steps += e.sim_events;
     for (k, v) in &e.counters {
         stats.add(k, *v);
